@@ -15,7 +15,8 @@
 (*                   code = error code the client got for it, data = reply carries record bytes for it, *)
 (*                   replied = the client got a reply at all; lease fields (leasing only): owner of the *)
 (*                   partition's lease key in etcd before the request, whether this broker's manager    *)
-(*                   reports ownership after it, owner of the key after it,                             *)
+(*                   reports ownership after it, owner of the key after it; foreign = another broker's  *)
+(*                   manager records ownership of the partition after it,                               *)
 (*        changed  : set of [k, n, p]: every piece of broker state whose projection differs after the   *)
 (*                   request: k = "topic" (existence, partition count) | "cfg" (topic configuration) |  *)
 (*                   "off" (next offset of n/p) | "s3" (objects of n/p) | "group" (group metadata)      *)
@@ -24,6 +25,7 @@ EXTENDS Integers, Sequences, FiniteSets
 CONSTANTS rq
 
 Self == "A"
+SelfOld == "A0"                 \* lease key written by this broker's previous incarnation (same broker id, older etcd lease)
 AuthCodes == {29, 30, 31}       \* TOPIC_ / GROUP_ / CLUSTER_AUTHORIZATION_FAILED
 NotLeader == 6                  \* NOT_LEADER_OR_FOLLOWER
 Retriable19 == {6, 7}           \* NOT_LEADER_OR_FOLLOWER, REQUEST_TIMED_OUT
@@ -76,7 +78,9 @@ C24_NoLeak == \A it \in Items : ~Auth(it) => ~it.data
 
 \* ---- C19: with leasing active, a produce is acknowledged / written only under a held lease ----
 Written(it) == \E c \in rq.changed : c.k \in {"s3", "off"} /\ c.n = it.name /\ c.p = it.part
-Held(it) == it.owns1 /\ it.owner1 = Self
+\* held = this broker's manager records ownership, the etcd key names this broker, and no other broker's manager records
+\* ownership of the same partition (a lease is exclusive: a key overwritten under a live foreign owner is not "held")
+Held(it) == it.owns1 /\ it.owner1 = Self /\ ~it.foreign
 IsLeasedProduce == rq.leasing /\ rq.api = "Produce"
 C19_AckOnlyIfHeld == IsLeasedProduce => \A it \in Items : (it.replied /\ it.code = 0) => Held(it)
 C19_NoWriteUnlessHeld == IsLeasedProduce => \A it \in Items : ~Held(it) => ~Written(it)
@@ -86,5 +90,5 @@ C19_RefusalCode == IsLeasedProduce => \A it \in Items :
 \* another broker owns the partition: the client is told so (unless the request is refused earlier for authorization
 \* or because etcd is unreachable for the metadata store / the lease manager: rq.storeUp / rq.leaseUp = FALSE, REQUEST_TIMED_OUT)
 C19_NotLeaderForOtherOwner == IsLeasedProduce => \A it \in Items :
-                      (it.owner0 \notin {"", Self} /\ rq.storeUp /\ rq.leaseUp /\ it.replied /\ it.code \notin AuthCodes) => it.code = NotLeader
+                      (it.owner0 \notin {"", Self, SelfOld} /\ rq.storeUp /\ rq.leaseUp /\ it.replied /\ it.code \notin AuthCodes) => it.code = NotLeader
 ====
